@@ -132,7 +132,7 @@ pub fn cmd_worker(prop: &str, seed: u64, from: u64, to: u64, hashes: bool) {
                         let _ = writeln!(
                             out,
                             "V {}",
-                            json!({"run": run, "seed": seed, "lane": rep.lane,
+                            json!({"run": run, "seed": seed, "lane": rep.lane, "worker_from": from,
                                    "violation": lanes::violation_json(&v), "scenario": sc})
                         );
                     } else {
@@ -404,17 +404,20 @@ pub fn process_history_pair(prop: &str, seed: u64, from: u64, run: u64) -> Optio
     Some((*seq.hashes.get(&run)?, *alone.hashes.get(&run)?))
 }
 
-/// Smallest power-of-two window of predecessors that still changes the run's event log.
-pub fn process_history_window(prop: &str, seed: u64, run: u64) -> Option<(u64, u64, u64)> {
+/// Smallest power-of-two window of predecessors that still changes the run's behaviour; the
+/// window never reaches further back than `worker_from`, the first run the original worker
+/// process executed, and that exact window is tried last (it is what actually happened).
+pub fn process_history_window(prop: &str, seed: u64, run: u64, worker_from: u64) -> Option<(u64, u64, u64)> {
+    let floor = worker_from.min(run);
     let mut back = 1u64;
     loop {
-        let from = run.saturating_sub(back);
+        let from = run.saturating_sub(back).max(floor);
         if let Some((a, b)) = process_history_pair(prop, seed, from, run) {
             if a != b {
                 return Some((from, a, b));
             }
         }
-        if from == 0 {
+        if from == floor {
             return None;
         }
         back *= 2;
@@ -869,7 +872,8 @@ pub fn cmd_check(prop: &str, tier: &str, seed: u64) -> i32 {
                                 // (C17) / on failures of threads of *earlier runs* of the same
                                 // process (C16): replay the run sequence instead
                                 let r = pick["run"].as_u64().unwrap_or(0);
-                                match process_history_window(prop, seed, r) {
+                                let wf = pick["worker_from"].as_u64().unwrap_or(0);
+                                match process_history_window(prop, seed, r, wf) {
                                     Some((from, h_seq, h_alone)) => {
                                         let v = crate::exec::Violation {
                                             props: vec![match prop { "C16" => "C16", "C15" => "C15", _ => "C17" }],
@@ -961,7 +965,7 @@ pub fn cmd_check(prop: &str, tier: &str, seed: u64) -> i32 {
             .find(|(r, h)| d2.hashes.get(r) != Some(h))
             .map(|(r, _)| *r);
         if let Some(r) = r {
-            if let Some((from, h_seq, h_alone)) = process_history_window(prop, seed, r) {
+            if let Some((from, h_seq, h_alone)) = process_history_window(prop, seed, r, 0) {
                 let v = crate::exec::Violation {
                     props: vec!["C17"],
                     clause: "result-depends-on-process-history".into(),
